@@ -21,7 +21,6 @@ CHECKS = {
  "C09": ("sched", "every interleaving (up to the preemption bound) of 2-3 goroutines performing first use of one counter/gauge/timer/histogram/child scope while a report pass runs is executed; object identity, allocation count and delivered sums are checked on each; a free-running -race pass covers the data-race clause", "bounded threads and preemptions"),
 }
 
-}
 _MORE = {
  "C10": ("seq", "breadth-first search over all histories up to a depth of timer records (int64 extremes), passes, stopwatch start/advance/stop on an injected clock, instrumented calls and Close of the subscope, on the plain, cached and reporter-less paths; after every step the reporter log / snapshot is compared with the reference model", "alphabet and depth bound; state key includes a capped record count so that periodic misbehaviour up to period 3 is not merged away"),
  "C11": ("seq+sched", "breadth-first search over all histories up to a depth on a test scope (4 derived scopes x 9 metric operations + Close), a snapshot after every step compared with a four-map reference model, every earlier snapshot vandalised and re-checked for independence; snapshots concurrent with recording are explored under the controlled scheduler", "alphabet and depth bound"),
